@@ -139,6 +139,9 @@ func GenNameSet(t *rapid.T, p LabelPool, n int) NameSet {
 			s = append(s, GenNameFrom(t, p, 5))
 		}
 	}
+	for i := range s {
+		s[i] = truncateName(s[i])
+	}
 	return s
 }
 
